@@ -29,6 +29,7 @@ type c02Step struct {
 }
 
 type c02Case struct {
+	Offset uint64 // robust.MessageOffset in force (main's default is 4648398125000000000)
 	Seed   int64
 	Params verifgen.Params
 	Steps  []c02Step
@@ -204,8 +205,8 @@ func (r *c02Run) checkBookkeeping(step string) {
 		idx := r.logs[i].Index
 		var got raft.Log
 		err := fsm.ircstore.GetLog(idx, &got)
-		_, inOut := outputStream.Get(robust.Id{Id: idx})
-		_, twinOut := r.tw.out.Get(robust.Id{Id: idx})
+		_, inOut := outputStream.Get(robust.Id{Id: robust.IdFromRaftIndex(idx)})
+		_, twinOut := r.tw.out.Get(robust.Id{Id: robust.IdFromRaftIndex(idx)})
 		if idx <= newest {
 			if err == nil {
 				r.viol("retained-folded-entry", fmt.Sprintf("after %s: entry %d is folded into the state filed under %d but still in the node's log copy", step, idx, newest))
@@ -237,8 +238,8 @@ func (r *c02Run) compareOutputs(step string, from int) {
 		if idx <= newest {
 			continue
 		}
-		a, okA := outReplies(r.tw.out, idx)
-		b, okB := outReplies(outputStream, idx)
+		a, okA := outReplies(r.tw.out, robust.IdFromRaftIndex(idx))
+		b, okB := outReplies(outputStream, robust.IdFromRaftIndex(idx))
 		if okA != okB {
 			continue // reported by checkBookkeeping
 		}
@@ -255,6 +256,8 @@ func (r *c02Run) compareOutputs(step string, from int) {
 func runC02Case(rep *verifrep.R, dir string, c c02Case) {
 	os.MkdirAll(dir, 0755)
 	defer os.RemoveAll(dir)
+	robust.MessageOffset = c.Offset
+	defer func() { robust.MessageOffset = 0 }()
 	c.Params.Commands = verifCommands()
 	hist := verifgen.New(c.Seed, c.Params).History()
 	r := &c02Run{rep: rep, c: c, liveAt: map[uint64]map[uint64]bool{}}
@@ -270,7 +273,13 @@ func runC02Case(rep *verifrep.R, dir string, c c02Case) {
 	sf := &FSM{}
 	for i := range hist {
 		e := hist[i]
-		if verifmon.Scope(scratch.VerifView(), &e) {
+		es := e
+		if es.Session != 0 {
+			es.Session = robust.IdFromRaftIndex(es.Session)
+		}
+		skip := verifmon.Scope(scratch.VerifView(), &es)
+		e.Role = es.Role
+		if skip {
 			continue
 		}
 		l := raftLogOf(&e)
@@ -281,7 +290,7 @@ func runC02Case(rep *verifrep.R, dir string, c c02Case) {
 					ok = false
 				}
 			}()
-			msg := robust.NewMessageFromBytes(l.Data, l.Index)
+			msg := robust.NewMessageFromBytes(l.Data, robust.IdFromRaftIndex(l.Index))
 			sf.applyRobustMessage(&msg, scratch, nil)
 		}()
 		if !ok {
@@ -412,7 +421,7 @@ func runC02Case(rep *verifrep.R, dir string, c c02Case) {
 			for _, ln := range lines {
 				next++
 				now += 1e6
-				e := verifgen.Entry{Type: int64(robust.IRCFromClient), Id: next, Session: s.Id.Id, Data: ln, UnixNano: now, ClientMessageId: next, RemoteAddr: s.RemoteAddr, Cmd: strings.SplitN(ln, " ", 2)[0], Gen: "probe"}
+				e := verifgen.Entry{Type: int64(robust.IRCFromClient), Id: next, Session: s.Id.Id - robust.MessageOffset, Data: ln, UnixNano: now, ClientMessageId: next, RemoteAddr: s.RemoteAddr, Cmd: strings.SplitN(ln, " ", 2)[0], Gen: "probe"}
 				r.logs = append(r.logs, raftLogOf(&e))
 				r.entries = append(r.entries, e)
 			}
@@ -428,7 +437,8 @@ func runC02Case(rep *verifrep.R, dir string, c c02Case) {
 			r.viol("state-differs-after-probes:"+strings.Join(d, "+"), fmt.Sprintf("after the probe continuation the states differ in %v", d))
 		}
 	}
-	r.rep.Case(fmt.Sprintf("schedule|%s|gaps=%v", strings.Join(sig, ","), c.Params.IndexGaps))
+	r.rep.Case(fmt.Sprintf("schedule|%s|gaps=%v|offset=%v", strings.Join(sig, ","), c.Params.IndexGaps, c.Offset != 0))
+	r.rep.Obs(fmt.Sprintf("schedules.message-offset-nonzero=%v", c.Offset != 0), 1)
 	r.rep.Obs("schedules", 1)
 }
 
@@ -459,7 +469,7 @@ func TestVerifC02(t *testing.T) {
 		seed := base*7919 + int64(k)
 		rng := rand.New(rand.NewSource(seed))
 		p := verifgen.Params{Len: 5 + rng.Intn(116), Garbage: 0.02, Services: rng.Intn(2) == 0, Captcha: rng.Intn(4) == 0, IndexGaps: rng.Intn(3) != 0, Deletes: true, MoD: rng.Intn(6) == 0, NoConfig: rng.Intn(8) == 0}
-		c := c02Case{Seed: seed, Params: p, Steps: c02Schedule(rng, p.Len)}
+		c := c02Case{Seed: seed, Params: p, Steps: c02Schedule(rng, p.Len), Offset: []uint64{0, 1000, 4648398125000000000}[rng.Intn(3)]}
 		if k == 0 {
 			rep.Sample(map[string]interface{}{"seed": seed, "history_len": p.Len, "steps": c.Steps})
 		}
